@@ -1345,6 +1345,11 @@ class Operation(_IRNode):
             value_mapper[self_result] = cloned_result
             if clone_name_hints:
                 cloned_result.name_hint = self_result.name_hint
+        if clone_operands:
+            # In graph regions an operation may use its own results
+            for idx, operand in enumerate(self._operands):
+                if isinstance(operand, OpResult) and operand.op is self:
+                    cloned_op.operands[idx] = value_mapper.get(operand, operand)
         return cloned_op
 
     def clone(
